@@ -58,6 +58,9 @@ class FakeNpLinalg:
 
     @staticmethod
     def qr(a, mode='reduced'):
+        if mode == 'r':
+            # np.linalg.qr(a, mode='r') returns the (reduced) triangular factor only
+            return qr(a, mode='economic')[1]
         if mode not in ('reduced', 'complete'):
             raise AnalysisError(f'np.linalg.qr mode {mode!r} has no model')
         return qr(a, mode='economic' if mode == 'reduced' else 'full')
@@ -237,10 +240,19 @@ class FakeNumpy:
         return Arr(a.shape, a.legs, a.dt, None, {}, 'sqrt')
 
     @staticmethod
-    def reciprocal(a):
+    def reciprocal(a, out=None, where=True):
         a = as_arr(a)
         t = {'reciprocal_of': a, 'prov': a.tags.get('prov')}
         md = a.tags.get('mx')
+        if isinstance(where, Arr):
+            # a masked reciprocal: the mask is a data-dependent selection of the entries (same event as np.where, so that the rules on cuts of
+            # singular values see it); the result is no longer plainly diag(1/s)
+            ctx().event('where', cond=where, index=None, env=_simple_env())
+            md = None
+        elif where is not True:
+            raise AnalysisError('np.reciprocal with this `where` argument has no model')
+        if out is not None and not (isinstance(out, Arr) and out.tags.get('const') == 'zeros' and not out.tags.get('stores')):
+            raise AnalysisError('np.reciprocal(out=...) into an array that is not a fresh zero array has no model')
         if md is not None and len(md) == 1 and md[0][0] in ('S', 'Sinv'):
             t['mx'] = ((('Sinv' if md[0][0] == 'S' else 'S'), md[0][1], '', md[0][3]),)
         return Arr(a.shape, a.legs, a.dt, None, t, 'reciprocal')
@@ -476,6 +488,17 @@ class FakeNumpy:
         return isinstance(x, complex)
 
     @staticmethod
+    def allclose(a, b, *x, **k):
+        raise UnknownTruth('np.allclose of numerical data')
+
+    @staticmethod
+    def isclose(a, b, *x, **k):
+        if isinstance(a, (int, float)) and isinstance(b, (int, float)):
+            import numpy as _np
+            return bool(_np.isclose(a, b, *x, **k))
+        raise UnknownTruth('np.isclose of numerical data')
+
+    @staticmethod
     def isrealobj(x):
         return not FakeNumpy.iscomplexobj(x)
 
@@ -695,6 +718,8 @@ _svd_counter = [0]
 def _destructive(a, flag, what):
     if flag:
         A.CTX.event('destructive', array=a, what=what, owner_fn=a.buf.fn)
+        # the routine may leave anything in this buffer: reading it afterwards is reading garbage (typestate 'destroyed', checked in L2Domain.on_native)
+        A.CTX.__dict__.setdefault('destroyed', {})[a.buf.uid] = (what, A.CTX.interp.where() if A.CTX.interp else '')
 
 
 def svd(a, full_matrices=True, overwrite_a=False, check_finite=True, lapack_driver='gesdd', compute_uv=True, **k):
